@@ -3,6 +3,7 @@ package ice
 // C04 — connection-state lifecycle and liveness timing.
 
 import (
+	"context"
 	"net"
 	"time"
 )
@@ -11,6 +12,7 @@ func init() {
 	verifRegister("verifC04TimingFn", verifC04TimingFn)
 	verifRegister("verifC04Validate", verifC04Validate)
 	verifRegister("verifC04InitialDeadline", verifC04InitialDeadline)
+	verifRegister("verifC04DeadlineRearm", verifC04DeadlineRearm)
 	verifRegister("verifC04Tick", verifC04Tick)
 	verifRegister("verifC04Update", verifC04Update)
 	verifRegister("verifC04Restart", verifC04Restart)
@@ -288,3 +290,35 @@ func (m *verifSlowMux) GetConn(string, net.Addr) (net.PacketConn, error) {
 }
 func (m *verifSlowMux) RemoveConnByUfrag(string)       { m.removed++; verifSettle() }
 func (m *verifSlowMux) GetListenAddresses() []net.Addr { return nil }
+
+// (b') the initial checking deadline counts from the moment Checking was
+// entered — and again from the Restart that re-enters it: fail on the deadline,
+// restart, and the next ticks must leave the agent Checking until a full
+// deadline has elapsed once more.
+func verifC04DeadlineRearm() {
+	w, _ := verifC04World(ConnectionStateChecking, false)
+	a := w.a
+	a.disconnectedTimeout, a.failedTimeout = 100*time.Millisecond, 100*time.Millisecond // deadline: 200 ms
+	a.checkInterval = time.Hour                                                         // ticks come from the harness only
+	go a.connectivityChecks()
+	tick := func() ConnectionState {
+		a.requestConnectivityCheck()
+		verifRunGoroutines()
+		var st ConnectionState
+		verifAssert(a.loop.Run(a.loop, func(context.Context) { st = a.connectionState }) == nil, "loop-open")
+		return st
+	}
+	verifAssert(tick() == ConnectionStateChecking, "first-tick:still-checking")
+	verifAdvanceClock(300 * time.Millisecond)
+	verifAssert(tick() == ConnectionStateFailed, "no-pair-within-the-deadline=>failed")
+	verifReach("failed-on-deadline")
+	verifAssert(a.Restart("freshufrag", "freshpasswordfreshpasswd") == nil, "restart-ok")
+	verifAssert(tick() == ConnectionStateChecking, "Restart-re-enters-Checking-and-re-arms-the-deadline")
+	verifAdvanceClock(120 * time.Millisecond)
+	verifAssert(tick() == ConnectionStateChecking, "within-the-new-deadline:still-checking")
+	verifAdvanceClock(150 * time.Millisecond)
+	verifAssert(tick() == ConnectionStateFailed, "the-new-deadline-elapsed=>failed-again")
+	a.loop.Close()
+	verifRunGoroutines()
+	verifReach("done")
+}
